@@ -24,9 +24,11 @@ let after p s = String.sub s (String.length p) (String.length s - String.length 
 let dump (v : dm) : string =
   String.concat " " (List.map (fun t -> if t = "l" then "!nil" else t) (String.split_on_char ' ' (string_of_dm v)))
 
-let parse_path (t : string) : n list list =
+(* "/<hex>" = string-stored segment, "/#<decimal>" = int-stored segment *)
+let parse_path (t : string) : xseg list =
   if t = "." then [] else
-  List.map bytes_of_hex (List.tl (String.split_on_char '/' t))
+  List.map (fun h -> if starts_with "#" h then SegI (z_of_int (int_of_string (after "#" h))) else SegS (bytes_of_hex h))
+    (List.tl (String.split_on_char '/' t))
 
 let parse_blocks (t : string) : (n list * dm) list =
   if t = "-" || t = "" then [] else
@@ -59,7 +61,7 @@ let fn_of (t : string) : dm option -> dm option =
   else if t = "wrap" then (fun x -> match x with Some v -> Some (DList [v]) | None -> Some (DList []))
   else let v = dm_of_string (after "c:" t) in (fun _ -> Some v)
 
-type stepspec = { path : n list list; fn : string; cp : bool }
+type stepspec = { path : xseg list; fn : string; cp : bool }
 let parse_step (t : string) : stepspec =
   match String.split_on_char ',' t with
   | [p; f; c] -> { path = parse_path p; fn = f; cp = (c = "1") }
@@ -68,7 +70,7 @@ let parse_step (t : string) : stepspec =
 (* one step of the model under quirks q: outcome text (with the callback log) and the continuation *)
 let model_step mklink (q : quirks) (st : (n list * dm) list) (cur : dm) (s : stepspec)
   : string * (dm * (n list * dm) list) option =
-  match focused_transform rfc_ltb mklink q (fn_of s.fn) s.cp fuel st cur s.path with
+  match focused_transform_segs rfc_ltb mklink q (fn_of s.fn) s.cp fuel st cur s.path with
   | Ok (v, (st', log)) ->
     ("ok:" ^ dump v ^ "#cb:" ^ String.concat "," (List.map seen_text log),
      if has_nil v then None else Some (v, st'))
@@ -83,6 +85,14 @@ let listing (bl : (n list * dm) list) : string =
 
 let strip_cb (o : string) : string = match split_on "#cb:" o with x :: _ -> x | [] -> o
 let cb_of (o : string) : string = match split_on "#cb:" o with [_; c] -> c | _ -> ""
+
+(* the blocks an expanded tree is annotated with: (link, block as stored) *)
+let rec blocks_of (t : xt) (acc : (n list * dm) list) : (n list * dm) list =
+  match t with
+  | XLeaf _ -> acc
+  | XList l -> List.fold_left (fun a x -> blocks_of x a) acc l
+  | XMap m -> List.fold_left (fun a (_, x) -> blocks_of x a) acc m
+  | XBlock (c, t') -> blocks_of t' ((c, raw t') :: acc)
 
 (* ---------------------------------------------------------------- ft records *)
 let do_ft id blocks root steps links obs =
@@ -117,6 +127,8 @@ let do_ft id blocks root steps links obs =
       let add c = if not (List.mem c !fails) then fails := c :: !fails in
       let cur = ref root in
       let stop = ref false in
+      let expected_new : (n list * dm) list ref = ref [] in
+      let unsure = ref false in
       let sobs = String.split_on_char '|' so in
       List.iteri (fun i o ->
           if not !stop && i < List.length steps then begin
@@ -125,17 +137,28 @@ let do_ft id blocks root steps links obs =
             let t = xexpand xfuel st_final !cur in
             let outcome = strip_cb o and cb = cb_of o in
             let good =
-              match xupdate rfc_ltb mklink f s.cp st_final t s.path with
-              | XNeedLoad -> true
+              match xupdate rfc_ltb mklink f s.cp st_final t (render_path s.path) with
+              | XNeedLoad -> unsure := true; true
               | XErr _ -> starts_with "err:" outcome
               | XOk (None, _) -> outcome <> "" && not (starts_with "ok:" outcome)   (* the root cannot be removed *)
               | XOk (Some t', seen) ->
                 let v = raw t' in
                 if s.path = [] && not (root_accepts !cur v) then starts_with "err:" outcome
-                else
+                else begin
+                  (* block structure: every block of the SPEC's tree must be in the store as annotated,
+                     and the ones that were not there before are the blocks this step has to add *)
+                  if outcome = "ok:" ^ dump v then
+                    List.iter (fun (c, b) ->
+                        (match List.assoc_opt c st_final with
+                         | Some b' when dm_eqb b b' -> ()
+                         | _ -> add "block_not_stored");
+                        if not (List.mem_assoc c st0) && not (List.mem_assoc c !expected_new) then
+                          expected_new := (c, b) :: !expected_new)
+                      (blocks_of t' []);
                   outcome = "ok:" ^ dump v
                   && (let calls = String.split_on_char ',' cb in
-                      calls <> [] && List.for_all (fun c -> c = seen_text seen) calls) in
+                      calls <> [] && List.for_all (fun c -> c = seen_text seen) calls)
+                end in
             if not good then begin
               (* which confirmed defect, if any, explains exactly this behaviour? *)
               let try_q on = fst (model_step mklink (mk_quirks on) st_final !cur s) in
@@ -156,6 +179,13 @@ let do_ft id blocks root steps links obs =
           end) sobs;
       if ex <> "exp:" ^ string_of_dm (erase (xexpand xfuel st_final !cur)) then add "reload_differs";
       if pu <> "pure:1" then add "input_mutated";
+      (* the set of newly stored blocks is exactly what the SPEC's trees call for (only meaningful when
+         every step agreed with the SPEC) *)
+      if !fails = [] && not !unsure then begin
+        let got = List.sort compare (List.map (fun (c, _) -> hex_of_bytes c) (parse_blocks (after "new:" nw))) in
+        let want = List.sort compare (List.map (fun (c, _) -> hex_of_bytes c) !expected_new) in
+        if got <> want then add "stored_blocks_differ"
+      end;
       List.iter (fun (c, v) ->
           if not (dm_eqb (sort_maps rfc_ltb v) v) then add "noncanonical_block";
           (* stored under the prototype of the link that was crossed: CIDv1, dag-cbor, sha2-256 *)
